@@ -9,9 +9,22 @@
      tw <idx> <kidx>                         validate [idx] against anchor [kidx] TWICE on the same structs
      pv <idx> <aidx>...                      public matrixValidateCerts on untouched parsed certificates: leaf, anchor list
      ps <yyyymmdd> <derhex> <desc...>        psX509ParseCert on (mutated) DER with the calendar at that day, 12:00
+     crl <idx> <derhex>                      register a CRL (DER) in the CRL table (psX509ParseCRL)
+     vk <rv> <nchain> <nanch> <ncrl> <node>... <crl>...     vc with a CRL cache loaded first
+     ak <nchain> <hasissuer> <ncrl> <node>... <crl>...      ac with a CRL cache loaded first
+     rv <yyyymmdd> <nchain> <nanch> <ncrl> <certhex>... <anchorhex>... <crlhex>:<by>:<mode>...
+                                             DER level, nothing overridden: parse everything, for every CRL
+                                             psX509ParseCRL, psX509AuthenticateCRL(by = a<i> | c<i> | -), psCRL_Update (mode u) or
+                                             psCRL_Insert (mode i); then the public matrixValidateCerts(chain, anchors)
 
-   node = b:k:hs:ss:co:alg:subj:iss:ver:ca:pl:ku:eku:crit:akl:akv:skl:skv:fl0:st0:nb:na:rev:sf:kf:ta:p3:dn
-     (sf..dn: ground truth for the model side, ignored here)
+   crl = ci:iss:au:ap:ex:nu:co:ss:up:sf:ta:serials          (sf.. : ground truth for the model side, ignored here)
+     ci   CRL table index (parsed afresh: the revoked list is what psX509ParseCRL makes of the DER)
+     iss  issuer DN hash id;  au  authenticated flag at entry;  ap  node index handed to psX509AuthenticateCRL before insertion (-1 none)
+     ex   expired flag at entry;  nu  nextUpdate variant (0 own, 1 past, 2 unparsable, 3 absent);  co=1 flips a signature byte
+     ss   CRL table index whose signature the CRL carries (-1 own);  up  0 psCRL_Insert, 1 psCRL_Update
+
+   node = b:k:hs:ss:co:alg:subj:iss:ver:ca:pl:ku:eku:crit:akl:akv:skl:skv:fl0:st0:nb:na:rev:sf:kf:ta:p3:dn[:serial]
+     (sf..dn: ground truth for the model side, ignored here;  rev: unused;  serial: serialNumber octets in hex, absent or "-" = own)
      b    table index of the certificate that is parsed (body)
      k    table index whose public key the node carries (-1 = own)
      hs   table index whose sigHash the node carries (-1 = own)
@@ -21,7 +34,8 @@
      crit 1 = extKeyUsage marked critical;  akl/akv skl/skv  authority / subject key id (length, fill value)
      fl0/st0  authFailFlags / authStatus at entry;  nb/na  notBefore / notAfter variant;  rev  CRL verdict
 
-   result:  rc=<rc> found=<-|c<i>|a<i>> st=<authStatus,...> fl=<authFailFlags,...>      (chain certificates) */
+   result:  rc=<rc> found=<-|c<i>|a<i>> st=<authStatus,...> fl=<authFailFlags,...> (chain certificates)
+            rl=<results of psCRL_determineRevokedStatus, in call order> ka=<authenticated,expired of every CRL afterwards> au=<psX509AuthenticateCRL results> */
 #define WRAP_TIME
 #include "matrixssl/matrixsslImpl.h"
 #include "hcommon.h"
@@ -41,13 +55,25 @@ void __wrap__psTraceInt(const char *m, int32 v) { (void) m; (void) v; }
 void __wrap__psTraceStr(const char *m, const char *v) { (void) m; (void) v; }
 void __wrap__psTracePtr(const char *m, const void *v) { (void) m; (void) v; }
 
-/* ---- CRL verdict is an input of the validator: link-time wrapper of the cache lookup */
-static struct { psX509Cert_t *c; int32 st; } g_rev[MAXN * 2]; static int g_nrev;
+/* ---- every consultation of the CRL cache is logged (link-time wrapper around the real function) */
+static int32 g_rl[64]; static int g_nrl;
+int32_t __real_psCRL_determineRevokedStatus(psX509Cert_t *cert);
 int32_t __wrap_psCRL_determineRevokedStatus(psX509Cert_t *cert)
 {
-    for (int i = 0; i < g_nrev; i++) if (g_rev[i].c == cert) { cert->revokedStatus = g_rev[i].st; return g_rev[i].st; }
-    cert->revokedStatus = CRL_CHECK_NOT_EXPECTED;
-    return cert->revokedStatus;
+    int32_t r = __real_psCRL_determineRevokedStatus(cert);
+    if (g_nrl < 64) g_rl[g_nrl++] = r;
+    return r;
+}
+
+#define MAXC 96
+static struct { unsigned char *der; size_t derLen; int ok; unsigned char *sig; psSize_t sigLen; } CR[MAXC];
+static int nCR;
+static psX509Crl_t *parse_crl_idx(int i)
+{
+    psX509Crl_t *c = NULL;
+    if (i < 0 || i >= nCR || !CR[i].der) return NULL;
+    if (psX509ParseCRL(NULL, &c, CR[i].der, (int32) CR[i].derLen) < 0) return NULL;
+    return c;
 }
 
 static psX509Cert_t *parse_idx(int i)
@@ -69,9 +95,9 @@ static char *dupstr(const char *s) { size_t l = strlen(s); char *p = psMalloc(NU
 
 static int build_node(node_t *n, char *tok)
 {
-    long f[28]; int nf = 0; char *save = NULL;
-    for (char *e = strtok_r(tok, ":", &save); e && nf < 28; e = strtok_r(NULL, ":", &save)) f[nf++] = atol(e);
-    if (nf != 28) return -1;      /* fields 23..27 are the generator's ground truth, used by the model side only */
+    long f[28]; int nf = 0; char *save = NULL, *serial = NULL;
+    for (char *e = strtok_r(tok, ":", &save); e && nf < 29; e = strtok_r(NULL, ":", &save)) { if (nf < 28) f[nf] = atol(e); else serial = e; nf++; }
+    if (nf != 28 && nf != 29) return -1;      /* fields 23..27 are the generator's ground truth, used by the model side only */
     memset(n, 0, sizeof(*n));
     psX509Cert_t *c = parse_idx((int) f[0]);
     if (!c) return -1;
@@ -114,7 +140,12 @@ static int build_node(node_t *n, char *tok)
     static const char *NA[] = { NULL, "190101000000Z", "xx" };
     if (f[20] > 0 && f[20] < 5) { psFree(c->notBefore, NULL); c->notBefore = dupstr(NB[f[20]]); c->notBeforeTimeType = ASN_UTCTIME; }
     if (f[21] > 0 && f[21] < 3) { psFree(c->notAfter, NULL); c->notAfter = dupstr(NA[f[21]]); c->notAfterTimeType = ASN_UTCTIME; }
-    if (g_nrev < MAXN * 2) { g_rev[g_nrev].c = c; g_rev[g_nrev].st = (int32) f[22]; g_nrev++; }
+    if (serial && strcmp(serial, "-") != 0) {
+        unsigned char *sn; size_t l = unhex(serial[0] == 'e' ? "-" : serial, &sn);      /* "e" = empty */
+        psFree(c->serialNumber, NULL); c->serialNumber = NULL; c->serialNumberLen = (psSize_t) l;
+        if (l > 0) { c->serialNumber = psMalloc(NULL, l); memcpy(c->serialNumber, sn, l); }
+        free(sn);
+    }
     return 0;
 }
 
@@ -140,6 +171,51 @@ static void print_result(int32 rc, psX509Cert_t *found, node_t *ch, int nc, node
     for (int i = 0; i < nc; i++) printf("%s%d", i ? "," : "", (int) ch[i].c->authStatus);
     printf(" fl=");
     for (int i = 0; i < nc; i++) printf("%s%u", i ? "," : "", (unsigned) ch[i].c->authFailFlags);
+    printf(" rl=");
+    if (!g_nrl) printf("-");
+    for (int i = 0; i < g_nrl; i++) printf("%s%d", i ? "," : "", (int) g_rl[i]);
+}
+
+/* ---- CRL cache of a case */
+typedef struct { psX509Crl_t *c; int32 aurc; int hasau; } kcrl_t;
+static int build_crl(kcrl_t *k, char *tok, node_t *ch, int nc, node_t *an, int na)
+{
+    long f[9]; int nf = 0; char *save = NULL;
+    for (char *e = strtok_r(tok, ":", &save); e && nf < 9; e = strtok_r(NULL, ":", &save)) f[nf++] = atol(e);
+    if (nf != 9) return -1;
+    memset(k, 0, sizeof(*k));
+    psX509Crl_t *c = parse_crl_idx((int) f[0]);
+    if (!c) return -1;
+    k->c = c;
+    memset(c->issuer.hash, 0, sizeof(c->issuer.hash)); memset(c->issuer.hash, (int) (f[1] & 0xff), SHA1_HASH_SIZE);
+    c->issuer.hash[0] = (char) ((f[1] >> 8) & 0xff);
+    c->authenticated = (int32_t) f[2];
+    c->expired = (uint16_t) f[4];
+    if (f[5] == 1 || f[5] == 2) { psFree(c->nextUpdate, NULL); c->nextUpdate = dupstr(f[5] == 1 ? "190101000000Z" : "xx"); c->nextUpdateType = ASN_UTCTIME; }
+    if (f[5] == 3) { psFree(c->nextUpdate, NULL); c->nextUpdate = NULL; }
+    if (f[7] >= 0) {
+        if (f[7] >= nCR || !CR[f[7]].ok) return -1;
+        psFree(c->sig, NULL); c->sig = psMalloc(NULL, CR[f[7]].sigLen + 1);
+        memcpy(c->sig, CR[f[7]].sig, CR[f[7]].sigLen); c->sigLen = CR[f[7]].sigLen;
+    }
+    if (f[6] == 1) c->sig[c->sigLen / 2] ^= 0x01;
+    if (f[3] >= 0) {
+        psX509Cert_t *ca = f[3] < nc ? ch[f[3]].c : (f[3] < nc + na ? an[f[3] - nc].c : NULL);
+        if (!ca) return -1;
+        k->aurc = psX509AuthenticateCRL(ca, c, NULL); k->hasau = 1;
+    }
+    if (f[8]) psCRL_Update(c, 0); else psCRL_Insert(c);
+    return 0;
+}
+static void print_cache(kcrl_t *k, int nk)
+{
+    printf(" ka=");
+    if (!nk) printf("-");
+    for (int i = 0; i < nk; i++) printf("%s%d%d", i ? "," : "", k[i].c->authenticated ? 1 : 0, k[i].c->expired ? 1 : 0);
+    printf(" au=");
+    int any = 0;
+    for (int i = 0; i < nk; i++) if (k[i].hasau) { printf("%s%d", any ? "," : "", (int) k[i].aurc); any = 1; }
+    if (!any) printf("-");
     printf("\n");
 }
 
@@ -166,17 +242,32 @@ int main(void)
                        (int) c->extensions.ak.keyLen, (int) c->extensions.sk.len, (unsigned) c->authFailFlags);
                 psX509FreeCert(c);
             } else printf("cert %d parsefail\n", i);
-        } else if (g_ntok >= 4 && (strcmp(g_tok[0], "vc") == 0 || strcmp(g_tok[0], "ac") == 0)) {
-            int isvc = g_tok[0][0] == 'v';
+        } else if (g_ntok == 3 && strcmp(g_tok[0], "crl") == 0) {
+            int i = atoi(g_tok[1]);
+            if (i < 0 || i >= MAXC) { printf("BADCASE\n"); fflush(stdout); continue; }
+            if (i >= nCR) nCR = i + 1;
+            free(CR[i].der); free(CR[i].sig); CR[i].sig = NULL;
+            CR[i].derLen = unhex(g_tok[2], &CR[i].der); CR[i].ok = 0;
+            psX509Crl_t *c = parse_crl_idx(i);
+            if (c) {
+                int n = 0; for (x509revoked_t *e = c->revoked; e; e = e->next) n++;
+                CR[i].ok = 1; CR[i].sig = malloc(c->sigLen + 1); memcpy(CR[i].sig, c->sig, c->sigLen); CR[i].sigLen = c->sigLen;
+                printf("crl %d ok n=%d alg=%d next=%d\n", i, n, (int) c->sigAlg, c->nextUpdate ? 1 : 0);
+                psX509FreeCRL(c);
+            } else printf("crl %d parsefail\n", i);
+        } else if (g_ntok >= 4 && (strcmp(g_tok[0], "vc") == 0 || strcmp(g_tok[0], "ac") == 0 || strcmp(g_tok[0], "vk") == 0 || strcmp(g_tok[0], "ak") == 0)) {
+            int isvc = g_tok[0][0] == 'v', hask = g_tok[0][1] == 'k';
             int rv = isvc ? atoi(g_tok[1]) : 0;
             int nc = atoi(g_tok[isvc ? 2 : 1]), na = atoi(g_tok[isvc ? 3 : 2]);
-            int base = isvc ? 4 : 3;
-            node_t ch[MAXN], an[MAXN]; int bad = 0;
-            memset(ch, 0, sizeof(ch)); memset(an, 0, sizeof(an));
-            g_nrev = 0;
-            if (nc < 1 || nc > MAXN || na < 0 || na > MAXN || g_ntok != base + nc + na) { printf("BADCASE\n"); fflush(stdout); continue; }
+            int nk = hask ? atoi(g_tok[isvc ? 4 : 3]) : 0;
+            int base = (isvc ? 4 : 3) + (hask ? 1 : 0);
+            node_t ch[MAXN], an[MAXN]; kcrl_t kc[MAXN]; int bad = 0;
+            memset(ch, 0, sizeof(ch)); memset(an, 0, sizeof(an)); memset(kc, 0, sizeof(kc));
+            g_nrl = 0;
+            if (nc < 1 || nc > MAXN || na < 0 || na > MAXN || nk < 0 || nk > MAXN || g_ntok != base + nc + na + nk) { printf("BADCASE\n"); fflush(stdout); continue; }
             for (int i = 0; i < nc && !bad; i++) if (build_node(&ch[i], g_tok[base + i]) < 0) bad = 1;
             for (int i = 0; i < na && !bad; i++) if (build_node(&an[i], g_tok[base + nc + i]) < 0) bad = 1;
+            for (int i = 0; i < nk && !bad; i++) if (build_crl(&kc[i], g_tok[base + nc + na + i], ch, nc, an, na) < 0) bad = 1;
             if (bad) { printf("NODEFAIL\n"); }
             else {
                 for (int i = 0; i + 1 < nc; i++) ch[i].c->next = ch[i + 1].c;
@@ -190,13 +281,14 @@ int main(void)
                     rc = psX509AuthenticateCert(NULL, ch[0].c, na ? an[0].c : NULL, &found, NULL, NULL);
                 }
                 print_result(rc, found, ch, nc, an, na);
+                print_cache(kc, nk);
             }
+            for (int i = 0; i < nk; i++) if (kc[i].c) psX509FreeCRL(kc[i].c);
             for (int i = 0; i < nc; i++) free_node(&ch[i]);
             for (int i = 0; i < na; i++) free_node(&an[i]);
         } else if (g_ntok == 3 && strcmp(g_tok[0], "tw") == 0) {
             /* the same parsed structures validated twice (no re-parse in between) */
             psX509Cert_t *l = parse_idx(atoi(g_tok[1])), *a = parse_idx(atoi(g_tok[2])), *found = NULL;
-            g_nrev = 0;
             if (!l || !a) { printf("NODEFAIL\n"); }
             else {
                 matrixValidateCertsOptions_t opts; memset(&opts, 0, sizeof(opts));
@@ -209,7 +301,6 @@ int main(void)
             if (l) psX509FreeCert(l); if (a) psX509FreeCert(a);
         } else if (g_ntok >= 3 && g_ntok < 3 + MAXN && strcmp(g_tok[0], "pv") == 0) {
             psX509Cert_t *l = parse_idx(atoi(g_tok[1])), *an[MAXN], *found = NULL; int na = g_ntok - 2, bad = (l == NULL);
-            g_nrev = 0;
             for (int i = 0; i < na; i++) { an[i] = parse_idx(atoi(g_tok[2 + i])); if (!an[i]) bad = 1; }
             if (bad) printf("NODEFAIL\n");
             else {
@@ -220,6 +311,52 @@ int main(void)
             }
             if (l) psX509FreeCert(l);
             for (int i = 0; i < na; i++) if (an[i]) psX509FreeCert(an[i]);
+        } else if (g_ntok >= 6 && strcmp(g_tok[0], "rv") == 0) {
+            int nc = atoi(g_tok[2]), na = atoi(g_tok[3]), nk = atoi(g_tok[4]), bad = 0;
+            psX509Cert_t *cc[MAXN], *aa[MAXN], *found = NULL; psX509Crl_t *kk[MAXN]; int32 aurc[MAXN]; int hasau[MAXN];
+            memset(cc, 0, sizeof(cc)); memset(aa, 0, sizeof(aa)); memset(kk, 0, sizeof(kk)); memset(hasau, 0, sizeof(hasau));
+            if (nc < 1 || nc > MAXN || na < 0 || na > MAXN || nk < 0 || nk > MAXN || g_ntok != 5 + nc + na + nk) { printf("BADCASE\n"); fflush(stdout); continue; }
+            int sy = g_pin_year, sm = g_pin_mon, sd = g_pin_day, ymd = atoi(g_tok[1]);
+            g_pin_year = ymd / 10000; g_pin_mon = (ymd / 100) % 100; g_pin_day = ymd % 100;
+            g_nrl = 0;
+            for (int i = 0; i < nc + na && !bad; i++) {
+                unsigned char *der; size_t l = unhex(g_tok[5 + i], &der); psX509Cert_t *c = NULL;
+                if (psX509ParseCert(NULL, der, (uint32) l, &c, 0) < 0) { if (c) psX509FreeCert(c); c = NULL; bad = 1; }
+                if (i < nc) cc[i] = c; else aa[i - nc] = c;
+                free(der);
+            }
+            for (int i = 0; i < nk && !bad; i++) {
+                char *save = NULL, *h = strtok_r(g_tok[5 + nc + na + i], ":", &save), *by = strtok_r(NULL, ":", &save), *mode = strtok_r(NULL, ":", &save);
+                if (!h || !by || !mode) { bad = 1; break; }
+                unsigned char *der; size_t l = unhex(h, &der);
+                if (psX509ParseCRL(NULL, &kk[i], der, (int32) l) < 0) { kk[i] = NULL; bad = 2; }
+                free(der);
+                if (bad) break;
+                psX509Cert_t *ca = by[0] == 'a' ? (atoi(by + 1) < na ? aa[atoi(by + 1)] : NULL) : by[0] == 'c' ? (atoi(by + 1) < nc ? cc[atoi(by + 1)] : NULL) : NULL;
+                if (ca) { aurc[i] = psX509AuthenticateCRL(ca, kk[i], NULL); hasau[i] = 1; }
+                if (mode[0] == 'u') psCRL_Update(kk[i], 0); else psCRL_Insert(kk[i]);
+            }
+            if (bad) printf(bad == 2 ? "CRLPARSEFAIL\n" : "NODEFAIL\n");
+            else {
+                for (int i = 0; i + 1 < nc; i++) cc[i]->next = cc[i + 1];
+                for (int i = 0; i + 1 < na; i++) aa[i]->next = aa[i + 1];
+                int32 rc = matrixValidateCerts(NULL, cc[0], na ? aa[0] : NULL, NULL, &found, NULL, NULL);
+                printf("rc=%d st=", (int) rc);
+                for (int i = 0; i < nc; i++) printf("%s%d", i ? "," : "", (int) cc[i]->authStatus);
+                printf(" rs=");
+                for (int i = 0; i < nc; i++) printf("%s%d", i ? "," : "", (int) cc[i]->revokedStatus);
+                printf(" au=");
+                int any = 0;
+                for (int i = 0; i < nk; i++) if (hasau[i]) { printf("%s%d", any ? "," : "", (int) aurc[i]); any = 1; }
+                if (!any) printf("-");
+                printf("\n");
+                for (int i = 0; i + 1 < nc; i++) cc[i]->next = NULL;
+                for (int i = 0; i + 1 < na; i++) aa[i]->next = NULL;
+            }
+            for (int i = 0; i < nk; i++) if (kk[i]) psX509FreeCRL(kk[i]);
+            for (int i = 0; i < nc; i++) if (cc[i]) psX509FreeCert(cc[i]);
+            for (int i = 0; i < na; i++) if (aa[i]) psX509FreeCert(aa[i]);
+            g_pin_year = sy; g_pin_mon = sm; g_pin_day = sd;
         } else if (g_ntok >= 3 && strcmp(g_tok[0], "ps") == 0) {   /* further tokens: abstract description for the model side */
             unsigned char *der; size_t l = unhex(g_tok[2], &der);
             psX509Cert_t *c = NULL;
